@@ -193,14 +193,22 @@ def build_shared_features_map(mod: fx.GraphModule) -> Dict[fx.Node, PITFeaturesM
     for n in nodes_to_remove:
         sharing_graph.remove_node(n)
 
+    # a group without any node that defines its number of features, but with a layer that takes
+    # its masker from its input (a depthwise convolution fed by a concatenation), cannot be given
+    # a masker of its own: the concatenation has no single masker to hand over
+    def undefined_width(c) -> bool:
+        return not any(n.meta['features_defining'] or n.meta['untouchable'] for n in c) and \
+            any(is_layer(n, mod, (nn.Conv1d, nn.Conv2d)) for n in c)
+
     # the inputs of a concatenation over the features axis were cut from it above, but their
     # features reach the output when the concatenation does: tie them to the output as well
-    # (repeated until nothing changes, for nested concatenations)
+    # (repeated until nothing changes, for nested concatenations). Their width is kept in the
+    # same way when the width of the concatenation must be kept for the reason above
     changed = True
     while changed:
         changed = False
         for c in nx.weakly_connected_components(sharing_graph):
-            if any(n.meta.get('output_connected', False) for n in c):
+            if any(n.meta.get('output_connected', False) for n in c) or undefined_width(c):
                 for n in c:
                     if n.meta['features_concatenate']:
                         for i in n.all_input_nodes:
@@ -227,6 +235,9 @@ def build_shared_features_map(mod: fx.GraphModule) -> Dict[fx.Node, PITFeaturesM
                 else:
                     sm = PITFeaturesMasker(n.meta['tensor_meta'].shape[1])
                 break
+        if sm is None and undefined_width(c):
+            n = next(n for n in c if is_layer(n, mod, (nn.Conv1d, nn.Conv2d)))
+            sm = PITFrozenFeaturesMasker(n.meta['tensor_meta'].shape[1])
         for n in c:
             sm_dict[n] = sm
     return sm_dict
